@@ -41,7 +41,7 @@ CHECKS = {
  "C10": vs("4/C10", "The real Connect loop on a virtual clock with a transport that records header and request body of every attempt; 5 request-body kinds; inside each scenario the explorer enumerates EVERY script of attempt outcomes up to the bound (transport failure, rejected response, 200 + 10 streams ending cleanly or with a read error; longer scripts over a smaller alphabet). The expected header is a fold of the WHATWG reference over the script; non-resettable bodies must end Connect after exactly one (two) attempts with ErrNoGetBody / GetBody's error - an endless retry loop is caught by the step horizon."),
  "C11": vs("4/C11", "The real Connect loop on a virtual clock; response bodies = every distinct prefix of every string of <= 4 (5) tokens, ending cleanly, with a read error or with a cancellation at that read, whole or byte-at-a-time, x MaxRetries x validator verdict (body and ending are explorer choices); a second thread cancelling at EVERY possible moment (all interleavings incl. timer-vs-cancel); rejected responses and oversized events on bodies that never end (blocking is decided by the deadlock detector); transport errors that merely look like context errors; the same bodies through sse.Read."),
  "C12": vs("4/C12", "The real Connect loop on a virtual clock, single thread: 576 Backoff configurations (all combinations of the listed values); inside each the explorer enumerates EVERY history of attempt outcomes up to the bound (failure, connect+drop, server retry fields valid and invalid) and the random draws (median plus deviation-bounded extremes at every position). The closed-form schedule is compared with OnRetry's waits, the durations the timer was armed with and the virtual times of the attempts."),
- "C13": vs("4/C13", "Sequential: EVERY sequence of <= 5 (6) operations {subscribe a / b / unnamed / all, call any remover returned so far (repeated, stale), deliver an event of type '' / a / b / c} chosen by the explorer and executed between two events on the Connect goroutine (or all before Connect), against a list model of live subscriptions. Concurrent: Connect dispatching while threads subscribe, remove, remove twice, re-subscribe and call stale removers, fast and slow callbacks: ALL interleavings of the instrumented RWMutex operations and all map orders, with online oracles (no invocation after the remover returned; exactly once for callbacks live across the dispatch; stream order)."),
+ "C13": vs("4/C13", "Sequential: EVERY sequence of <= 5 (6) operations {subscribe a / b / unnamed / all, call any remover returned so far (repeated, stale), deliver an event of type '' / a / b / c} chosen by the explorer and executed between two events on the Connect goroutine (or all before Connect), against a list model of live subscriptions. Concurrent: Connect dispatching while threads subscribe, remove, remove twice, re-subscribe and call stale removers, fast and slow callbacks: ALL interleavings of the instrumented RWMutex operations and all map orders, with online oracles (no invocation after the remover returned; exactly once for callbacks live across the dispatch; stream order) and a happens-before data-race detector inside the scheduler (vector clocks over all shim operations, checked against instrumented field and map accesses in every schedule); a free-running go test -race pass is auxiliary."),
  "C17": vs("4/C17", "Three (four) subscribers with one failing at its k-th call, a publisher, and a replayer whose k-th Put/Replay errs or panics (all enumerated): ALL schedules, map orders exhaustively in the racing scenarios and deviation-bounded in the phased ones; the delivery oracle demands for the healthy subscribers exactly what C03 demands, as if the failing one did not exist."),
  "C05": vs("4/C05", "Whole stack in one process under the controlled scheduler: real Server + Joe + replayer and real Client/Connection, the transport runs ServeHTTP on a handler thread per attempt and pipes the ResponseWriter into the response body. After the client's first event the connection is severed after ANY byte of ANY write (one cut), or at every write boundary / mid-write with TWO cuts (first cut enumerated as scenarios, second by the explorer), or a killer thread ends started handlers (clean end of body); thread switches at blocking points (plus one preemption in the fault-free scenario), all select tie-breaks. Oracle: the client sees exactly the published sequence from its first event on; no panic; writes after ServeHTTP returned are failures; everything terminates."),
  "C06": dict(engine="vsched", category="model_checking", design="4/C06",
